@@ -143,6 +143,7 @@ pub struct C29Config {
     pub faulty: bool,
     pub reopen: bool,
     pub config_changes: bool,
+    pub derived: bool,
 }
 
 fn pick_text_of_class(rng: &mut Rng, corpus: &Corpus, k: u64, want: &str, templates_only: bool) -> usize {
@@ -187,6 +188,7 @@ pub fn gen_c29(rng: &mut Rng, corpus: &Corpus, cfg: &C29Config) -> Value {
     let mut opened = vec![false; n_docs];
     let mut version = vec![0i64; n_docs];
     let mut prev_class: Vec<Option<String>> = vec![None; n_docs];
+    let mut cur_text: Vec<Option<String>> = vec![None; n_docs];
     let mut edit_no = 0u64;
     for _ in 0..total_edits {
         let d = rng.usize_below(n_docs);
@@ -196,6 +198,7 @@ pub fn gen_c29(rng: &mut Rng, corpus: &Corpus, cfg: &C29Config) -> Value {
             ops.push(json!({"t": "close", "uri": uri(d)}));
             opened[d] = false;
             prev_class[d] = None;
+            cur_text[d] = None;
             if rng.chance(1, 2) {
                 version[d] = 0;
             }
@@ -210,7 +213,15 @@ pub fn gen_c29(rng: &mut Rng, corpus: &Corpus, cfg: &C29Config) -> Value {
         prev_class[d] = Some(class.to_string());
         edit_no += 1;
         let inst = if rng.chance(1, 10) { 0 } else { edit_no };
-        let text = instantiate(&corpus.texts[ti], inst);
+        let mut text = instantiate(&corpus.texts[ti], inst);
+        // a quarter of the changes are small editor-like edits of the document's current text
+        // (comment a line out, type a character, whitespace-only edits ...)
+        if let Some(prev) = &cur_text[d] {
+            if cfg.derived && rng.chance(1, 4) {
+                text = derive_edit(rng, prev);
+            }
+        }
+        cur_text[d] = Some(text.clone());
         version[d] += if rng.chance(1, 6) { rng.range(2, 5) as i64 } else { 1 };
         if !opened[d] {
             opened[d] = true;
@@ -572,7 +583,39 @@ pub fn derive_edit(rng: &mut Rng, prev: &str) -> String {
     let n_edits = 1 + rng.below(2);
     for _ in 0..n_edits {
         let i = rng.usize_below(lines.len());
-        match rng.below(9) {
+        match rng.below(12) {
+            9 => {
+                // whitespace-only edit at the very beginning of the document
+                let ws = *rng.pick(&["", "", " ", "\t"]);
+                let n = rng.below(3) as usize + if ws.is_empty() { 1 } else { 0 };
+                for _ in 0..n {
+                    lines.insert(0, ws.to_string());
+                }
+                if n == 0 {
+                    lines[0] = format!("{ws}{}", lines[0]);
+                }
+            }
+            10 => {
+                // whitespace-only edit at the end (final newline added or removed, trailing blanks)
+                match rng.below(3) {
+                    0 => lines.push(String::new()),
+                    1 => {
+                        if lines.len() > 1 && lines.last().map(|l| l.trim().is_empty()).unwrap_or(false) {
+                            lines.pop();
+                        }
+                    }
+                    _ => {
+                        if let Some(l) = lines.last_mut() {
+                            l.push_str("  ");
+                        }
+                    }
+                }
+            }
+            11 => {
+                // re-indent a line
+                let t = lines[i].trim_start().to_string();
+                lines[i] = format!("{}{t}", *rng.pick(&["", "  ", "    ", "\t"]));
+            }
             0 | 1 => {
                 // comment the line out (keep the indentation)
                 let indent: String = lines[i].chars().take_while(|c| c.is_whitespace()).collect();
